@@ -262,6 +262,11 @@ def cases_for(max_n, budget, isd_iters, seed, max_L, max_L_2d, max_color):
             max_L, max_L_2d, max_color, max_n=max_n, with_deformations=False)):
         if c['cls'] == 'Color666ToricCode' and c['size'][0] != c['size'][1]:
             continue
+        if case_sig(c).get('slab_hole'):
+            # C01 known finding: these HollowRhombicCode sizes have unlisted
+            # logical qubits (weight-4 half cubes), so "the" distance of the
+            # listed code is not defined; excluded by construction
+            continue
         out.append(dict(c, budget=budget, isd_iters=isd_iters,
                         rseed=seed * 31 + i))
     # every deformation x axis of every instance reports the same d
@@ -284,7 +289,8 @@ def run(ctx):
         cases = cases_for(320, 20000000, 300, ctx.seed, 6, 12, 3)
     ctx.note('instances', len(cases))
     ctx.note('excluded_from_domain',
-             'Color666ToricCode with L_x != L_y (logicals cannot be built: C01 known finding)')
+             'Color666ToricCode with L_x != L_y (logicals cannot be built) and HollowRhombicCode '
+             'slab-hole sizes (rank deficient): both C01 known findings')
     ctx.run_cases(cases, chunk=1)
     ctx.aux = [a for a in ctx.aux if 'decided' in a]
     ctx.note('decided_exhaustively', sorted(
